@@ -18,6 +18,7 @@ import (
 	"sort"
 	"strings"
 	"sync"
+	"sync/atomic"
 	"testing"
 	"time"
 
@@ -466,7 +467,7 @@ func TestVerifC07(t *testing.T) {
 		"domain pattern matching itself (C11) is exercised only with the small pattern pool of the routing generator")
 
 	r := vk.NewRand(0xC07)
-	gen := &vk.DGen{R: r, Internal: true}
+	gen := &vk.DGen{R: r, Internal: true, LongReq: 8}
 	nprog := vk.Scale(1500, 30000)
 	nq := vk.Scale(40, 60)
 	nflow := vk.Scale(14, 20)
@@ -610,6 +611,9 @@ func TestVerifC07(t *testing.T) {
 					"reference": mref, "got": mgot, "original_text": p.Text(), "original_reference": ref, "original_got": got})
 			break
 		}
+
+		// ---------- level 1b: a second question while an upstream is being initialised ----------
+		verifC07LazyWindow(m, r, p, qs)
 
 		// ---------- level 2: controller flow ----------
 		verifC07Flow(m, r, p, b, qs, tags, nflow)
@@ -808,5 +812,109 @@ func verifC07Flow(m *vk.Monitor, rr *rand.Rand, p *vk.DProg, b *verifC07Built, q
 		} else {
 			m.Count("l2_after_reject_cache_survived", 1)
 		}
+	}
+}
+
+// verifC07LazyWindow: upstreams are initialised lazily by the first question routed to them; the
+// control plane's UpstreamReadyCallback (it waits for the control plane to become ready) runs in
+// the middle of that. A second question for the same upstream that is resolved and answered
+// meanwhile must still have its answer judged by the first matching response rule, i.e. the
+// answering upstream must be recognised for upstream(...) conditions. The callback dae invokes
+// is used as the window: the second question runs to completion inside it.
+func verifC07LazyWindow(m *vk.Monitor, r interface{ IntN(int) int }, p *vk.DProg, qs []vk.DQuestion) {
+	// a question the request rules send to a named upstream
+	var q vk.DQuestion
+	tag := ""
+	for _, c := range qs {
+		if c.Name == "" {
+			continue
+		}
+		if ref, _ := vk.RefDnsRequest(p, c); ref != "asis" && ref != "reject" {
+			q, tag = c, ref
+			break
+		}
+	}
+	if tag == "" {
+		return
+	}
+	text := "global {}\nrouting {\n    fallback: direct\n}\n" + p.Text()
+	sections, err := config_parser.Parse(text)
+	if err != nil {
+		return
+	}
+	conf, err := config.New(sections)
+	if err != nil {
+		return
+	}
+	host := ""
+	for _, u := range p.Upstreams {
+		if u.Tag == tag {
+			host = u.Host
+		}
+	}
+	rng := vk.NewRand(uint64(r.IntN(1 << 30)))
+	rrs := vk.DProbeAnswer(p, q, rng)
+	want, _ := vk.RefDnsResponse(p, q, vk.AnswerIPs(rrs), tag)
+	var d *dns.Dns
+	var entered atomic.Bool
+	inner := "not-run"
+	d, err = dns.New(&conf.Dns, &dns.NewOption{
+		Logger: verifQuietLog(),
+		UpstreamReadyCallback: func(u *dns.Upstream) error {
+			if u == nil || u.Hostname != host {
+				return nil
+			}
+			if !entered.CompareAndSwap(false, true) {
+				return nil // the nested initialisation started by the second question
+			}
+			func() {
+				done := make(chan string, 1)
+				go func() {
+					defer func() {
+						if rec := recover(); rec != nil {
+							done <- fmt.Sprintf("PANIC: %v", rec)
+						}
+					}()
+					idx, up, e := d.RequestSelect(context.Background(), q.Name, q.Qtype)
+					if e != nil || up == nil || int(idx) >= len(p.Upstreams) || p.Upstreams[idx].Tag != tag {
+						done <- fmt.Sprintf("request: idx=%v up=%v err=%v", idx, up, e)
+						return
+					}
+					b := &verifC07Built{routing: d, ups: map[string]*dns.Upstream{tag: up}}
+					done <- "response:" + verifC07RespSelect(b, p, q, rrs, tag)
+				}()
+				select {
+				case inner = <-done:
+				case <-time.After(2 * time.Second):
+					inner = "blocked"
+				}
+			}()
+			return nil
+		},
+	})
+	if err != nil || d.CheckUpstreamsFormat() != nil {
+		return
+	}
+	m.Eval(1)
+	// the first question: triggers the lazy initialisation of the upstream
+	if idx, up, e := d.RequestSelect(context.Background(), q.Name, q.Qtype); e != nil || up == nil || int(idx) >= len(p.Upstreams) || p.Upstreams[idx].Tag != tag {
+		m.Count("l1b_first_question_not_routed_to_upstream", 1)
+		return
+	}
+	switch {
+	case inner == "not-run":
+		m.Count("l1b_callback_not_invoked", 1)
+	case inner == "blocked":
+		m.Count("l1b_second_question_waited_for_initialisation", 1)
+	case strings.HasPrefix(inner, "response:"):
+		m.Count("l1b_second_question_answered_inside_window", 1)
+		m.Distinct("L1B|" + verifC07Shape(p.Resp))
+		if got := strings.TrimPrefix(inner, "response:"); got != want {
+			m.Violation("response-mismatch/during-upstream-initialisation",
+				fmt.Sprintf("a question resolved and answered by upstream %s while that upstream's initialisation callback was still running had its answer routed to %s; the first matching response rule says %s", tag, got, want),
+				map[string]any{"text": p.Text(), "qname": q.Name, "qtype": q.Qtype, "answers": verifC07WantStrings(rrs), "from_upstream": tag, "reference": want, "got": got})
+		}
+	default:
+		m.Count("l1b_second_question_other_outcome", 1)
 	}
 }
